@@ -2,7 +2,7 @@ CONSTANTS
   Triggers = {"unit", "u8", "u32", "U53", "datetime", "generic_param", "mapped_bytes", "user_enum"}
   Wrappers = {"vec", "option", "mapv", "array", "garg", "box"}
   MaxDepth = 2
-  Positions = {"field", "payload", "alias", "vfield"}
+  Positions = {"field", "field_default", "vfield_default", "payload", "alias", "vfield"}
   Modes = {"single"}
 INIT Init
 NEXT Next
